@@ -326,7 +326,7 @@ func Items() []Item {
 		{ID: "subnsaa", Quick: true, Why: "36 NS at sub tagged aa (with 12: tagged NS next to untagged SOA+NS; with subsoa: split cut; alone: delegation for aa only)",
 			Lines: []Line{NS("sub.example.com", "", "nsaa.other.org", "3600", "aa")}},
 		{ID: "subsoa", Why: "36 untagged SOA at sub without NS", Lines: []Line{SOA("sub.example.com", "")}, Conflicts: []string{"sub"}},
-		{ID: "subns", Why: "36 untagged NS at sub without SOA: a delegation, with subsoaaa a zone for aa only",
+		{ID: "subns", Quick: true, Why: "36 untagged NS at sub without SOA: a delegation, with subsoaaa a zone for aa only",
 			Lines: []Line{NS("sub.example.com", "192.0.2.56", "ns.sub.example.com", "3600", "")}},
 		{ID: "cndup", Why: "36 CNAME both untagged and tagged aa", Conflicts: []string{"cn"},
 			Lines: []Line{CNAME("c.example.com", "www.example.com", "300", ""), CNAME("c.example.com", "a.example.com", "300", "aa")}},
